@@ -45,4 +45,29 @@ def famIdxSer (kv : KV) : String × String :=
     s!"r=ok rt=ok rest=0 get={if qs.isEmpty then "-" else gets} each={each}" ++ (if nodup then s!" bytes={refBytes}" else "")
   (m, s)
 
+/-- record `i` of the big-bucket case: a sha2-256-coded raw CID whose 32-byte digest starts with `i`
+    (big endian, 4 bytes) and goes on with the bytes `i + j`; offset `100 i + 7` -/
+def bigRecord (i : Nat) : Record :=
+  let d : Bytes := [UInt8.ofNat (i / 2 ^ 24), UInt8.ofNat (i / 2 ^ 16), UInt8.ofNat (i / 2 ^ 8), UInt8.ofNat i] ++
+    (List.range 28).map fun j => UInt8.ofNat (i + j + 4)
+  ⟨⟨1, 0x55, 0x12, d⟩, 100 * i + 7⟩
+
+/-- `idxbig`: one bucket past a megabyte — the count the writer reports, the bytes written, the round trip
+    and three lookups (no hex dump of the index). -/
+def famIdxBig (kv : KV) : String × String :=
+  let codec := if KV.getD kv "codec" "mh" == "sorted" then codecSorted else codecMhSorted
+  let n := KV.nat kv "n" 27000
+  let recs := (List.range n).map bigRecord
+  let qs := [0, n / 2, n - 1].map fun i => (bigRecord i).cid
+  let res := match Index.load codec recs with
+    | none => "r=err"
+    | some ix =>
+      let bytes := ix.bytes
+      match Index.read bytes with
+      | .ok (ix2, rest) =>
+        let gets := String.intercalate "," (qs.map fun q => natsStr (ix2.getAll q))
+        s!"r=ok n={bytes.length} len={bytes.length} rt=ok rest={rest.length} get={gets}"
+      | .error _ => s!"r=ok n={bytes.length} len={bytes.length} rt=err"
+  (res, res)
+
 end Car.Driver
